@@ -42,7 +42,7 @@ explain_exprs = D.explain_exprs
 shrink_candidates = D.shrink_candidates
 distribution = D.distribution
 
-W = dict(call=30, burst=8, adv=16, cancel=20, fin=6, **{'yield': 18}, **{'raise': 4}, junk=2)
+W = dict(call=30, chain=5, burst=8, adv=16, cancel=20, fin=6, **{'yield': 18}, **{'raise': 4}, junk=2)
 
 
 def _fresh_then_finish(cfg, evs):
